@@ -21,7 +21,14 @@ var registry []*Rule
 // tierThorough widens the entry sets of cone-based rules to every package of the module.
 var tierThorough bool
 
-func register(r *Rule) { registry = append(registry, r) }
+func register(r *Rule) {
+	for _, o := range registry {
+		if o.ID == r.ID {
+			panic("rule id registered twice: " + r.ID) // (two rules under one id would share known-finding keys and evidence rows)
+		}
+	}
+	registry = append(registry, r)
+}
 
 func rulesFor(prop, tier string) []*Rule {
 	var out []*Rule
